@@ -424,6 +424,11 @@ func (s *Session) wait(reqs <-chan *Request) error {
 		switch msg.Type {
 		case "exit-status":
 			if len(msg.Payload) < 4 {
+				// Keep servicing the request stream until the channel
+				// is closed: unread requests would fill the channel's
+				// buffer and then block the mux read loop, stalling
+				// the whole connection.
+				go DiscardRequests(reqs)
 				return errors.New("ssh: malformed exit-status request")
 			}
 			wm.status = int(binary.BigEndian.Uint32(msg.Payload))
@@ -435,6 +440,7 @@ func (s *Session) wait(reqs <-chan *Request) error {
 				Lang       string
 			}
 			if err := Unmarshal(msg.Payload, &sigval); err != nil {
+				go DiscardRequests(reqs)
 				return err
 			}
 
